@@ -23,3 +23,21 @@ Theorem C03_init_nonvacuous :
   Inv bytes snappy_dec chunk_raw (vinit bytes).
 Proof. exact Inv_init. Qed.
 Print Assumptions C03_init_nonvacuous.
+
+(* the byte codec of a field's doc-value region: the frozen reader (Layout.dv_at, the parser the
+   correspondence run applies to the files zapx writes) recovers exactly the documents' term lists
+   from the documented encoding, for any number of chunks and documents; snappy is a Section
+   hypothesis (decode . encode = id), see DESIGN trusted base *)
+Require ZV.DvProof.
+Theorem C03_docvalue_region_roundtrip :
+  forall (snappy_enc : Bytes.bytes -> Bytes.bytes) (dec_snappy : Bytes.bytes -> option Bytes.bytes),
+  (forall x, dec_snappy (snappy_enc x) = Some x) ->
+  forall (dvchunk : N) (fpre : list N) (chunks : list (list DvProof.docent)) (frest : list N),
+  (forall j ds, nth_error chunks j = Some ds -> DvProof.wf_chunk dvchunk (N.of_nat j) ds) ->
+  (N.of_nat (length chunks) < Layout.max_count)%N ->
+  Forall Bytes.u64 (LayoutProof.cum_from 0 (map LayoutProof.nlenb (map (DvProof.chunk_bytes snappy_enc) chunks))) ->
+  (LayoutProof.nlenb (flat_map Bytes.uv (LayoutProof.cum_from 0 (map LayoutProof.nlenb (map (DvProof.chunk_bytes snappy_enc) chunks)))) < 256 ^ 8)%N ->
+  Layout.dv_at dec_snappy dvchunk (fpre ++ DvProof.enc_region snappy_enc chunks ++ frest) (N.of_nat (length fpre))
+    (N.of_nat (length fpre) + LayoutProof.nlenb (DvProof.enc_region snappy_enc chunks))%N = Some (concat chunks).
+Proof. exact DvProof.dv_region_roundtrip. Qed.
+Print Assumptions C03_docvalue_region_roundtrip.
